@@ -528,8 +528,20 @@ func (g *gen) rewritePkgRefs(info *types.Info, node ast.Node) ast.Node {
 			// further rewriting.
 			return true
 		}
+		var field types.Object
+		if v, ok := obj.(*types.Var); ok && v.Embedded() && info.Defs[id] == obj {
+			// An embedded field is named after its type: this identifier
+			// declares the field and uses the type, and both take the type's
+			// new name.
+			if tn := info.Uses[id]; tn != nil {
+				field, obj = obj, tn
+			}
+		}
 		if n, ok := newNames[obj]; ok {
 			// We picked a new name for this symbol. Rewrite it.
+			if field != nil {
+				newNames[field] = n
+			}
 			c.Replace(ast.NewIdent(n))
 			return false
 		}
@@ -546,6 +558,9 @@ func (g *gen) rewritePkgRefs(info *types.Info, node ast.Node) ast.Node {
 		}
 		newName := disambiguate(objName, collides)
 		newNames[obj] = newName
+		if field != nil {
+			newNames[field] = newName
+		}
 		c.Replace(ast.NewIdent(newName))
 		return false
 	}, nil)
